@@ -141,11 +141,12 @@ theorem variable_roundtrip (v : VarRec) : loadVariable (printVariable v) = v := 
 /-! ### the attribute vocabulary of printer and parser (tables regenerated from printer.cpp and parser.cpp) -/
 
 /-- T-tie: every attribute name the printer writes on an element is one the parser looks for on that element, and every
-    attribute the parser looks for is written back by the printer — except the two CellML 1.x interface attributes, which
-    are merged into `interface` (C14) -/
+    attribute the parser looks for is written back by the printer — except the CellML 1.x attributes: the two interface
+    attributes, which are merged into `interface` (C14), and the `offset` of a unit, which CellML 2.0 cannot represent and
+    the permissive parser drops with a message (fix 61e3219) -/
 theorem attribute_vocabulary :
     (∀ r ∈ Cellml.Generated.Attributes.rows, ∀ a ∈ r.2.2, a ∈ r.2.1)
-      ∧ (∀ r ∈ Cellml.Generated.Attributes.rows, ∀ a ∈ r.2.1, a ∈ r.2.2 ∨ a = "public_interface" ∨ a = "private_interface")
+      ∧ (∀ r ∈ Cellml.Generated.Attributes.rows, ∀ a ∈ r.2.1, a ∈ r.2.2 ∨ a = "public_interface" ∨ a = "private_interface" ∨ a = "offset")
       ∧ Cellml.Generated.Attributes.rows.map (·.1) = ["model", "component", "units", "variable", "connection", "encapsulation", "import", "reset"]
       ∧ (∀ r ∈ Cellml.Generated.Attributes.rows, r.2.2 ≠ []) := by
   decide +kernel
